@@ -108,7 +108,7 @@ class Prop(SeqProp):
     pid = "C13"
     model = "records"
     anchors = ["windpyutils/files.py"]
-    quick_cases = 300
+    quick_cases = 900
     thorough_cases = 3000
     rule = ("string records over an alphabet of delimiter, tab, quote, backslash, blank, non-ASCII, unicode line separators "
             "and empty strings: Lean csv writer vs CSVRecord/TSVRecord.save and Lean reader vs load on every generated row (with "
